@@ -49,6 +49,7 @@ type AssertBefore struct {
 	ApplyArgs  []*Clause // (its requires are proved here, its ensures assumed on the rest of the path)
 	LetName    string // let_after: binds a specification-only local (name, type) to the clause's value after the anchor
 	LetType    string
+	FromReq    bool // from_requires: precondition of the suffix verified under `pragma from`, over the locals in scope there
 }
 
 type LoopSpec struct {
@@ -120,7 +121,7 @@ var clauseKeywords = map[string]bool{
 	"func": true, "trusted": true, "pure": true, "inline": true, "ignore": true, "spec": true, "lemma": true, "import": true,
 	"requires": true, "requires_inv": true, "ensures": true, "modifies": true, "loop": true, "arith": true, "overflow": true, "allow_panic": true,
 	"theory": true, "untrusted_input": true, "pragma": true, "assert": true, "note": true, "tparams": true, "ghost": true, "decl": true, "atcall": true, "ignorepkg": true, "trusted_ensures": true,
-	"guarded_by": true, "requires_held": true, "holds_during": true, "lock_order": true, "unshared": true, "lock_alias": true, "assert_before": true, "assert_after": true, "hint_after": true, "hint_before": true, "assume_after": true, "closure_requires": true, "let_after": true, "use_lemma": true, "havoc_after": true, "apply_after": true,
+	"guarded_by": true, "requires_held": true, "holds_during": true, "lock_order": true, "unshared": true, "lock_alias": true, "assert_before": true, "assert_after": true, "hint_after": true, "hint_before": true, "assume_after": true, "closure_requires": true, "let_after": true, "use_lemma": true, "havoc_after": true, "apply_after": true, "from_requires": true,
 }
 
 type rawClause struct {
@@ -426,6 +427,14 @@ func loadContracts(dir, pkgPath string) (*PkgContracts, error) {
 					return nil, fmt.Errorf("%s:%d: assert_before: unterminated anchor", path, c.line)
 				}
 				cur.AssertsBefore = append(cur.AssertsBefore, &AssertBefore{After: c.kw != "assert_before" && c.kw != "hint_before", Hint: c.kw == "hint_after" || c.kw == "hint_before", Assume: c.kw == "assume_after", Havoc: c.kw == "havoc_after", Anchor: t[1 : 1+k], Clause: &Clause{Text: strings.TrimSpace(t[2+k:]), Line: c.line}})
+			case "from_requires":
+				// from_requires <expr>: with `pragma from <anchor>`, what the skipped prefix is relied on to
+				// have established about the locals in scope at the anchor (assumed there, listed)
+				from := strings.TrimSpace(cur.Pragmas["from"])
+				if from == "" {
+					return nil, fmt.Errorf("%s:%d: from_requires needs a preceding `pragma from <anchor>`", path, c.line)
+				}
+				cur.AssertsBefore = append(cur.AssertsBefore, &AssertBefore{FromReq: true, Anchor: from, Clause: &Clause{Text: strings.TrimSpace(c.text), Line: c.line}})
 			case "use_lemma":
 				cur.UseLemmas = append(cur.UseLemmas, strings.Fields(c.text)...)
 			case "apply_after":
@@ -545,6 +554,7 @@ func __in[K comparable, V any](m map[K]V, k K) bool { _, ok := m[k]; return ok }
 func __fresh[T any](x T) bool       { return true }
 func __is(err error, target error) bool { return true }
 func __ri(n int) int                    { return 0 }
+func __rc(n int) int                    { return 0 }
 func __rm[T any](n int) T { var z T; return z }
 func __recvs() int { return 0 }
 func __wgerr() error { return nil }
@@ -624,6 +634,7 @@ func __in[K comparable, V any](m map[K]V, k K) bool { _, ok := m[k]; return ok }
 func __fresh[T any](x T) bool       { return true }
 func __is(err error, target error) bool { return __errors.Is(err, target) }
 func __ri(n int) int                    { return 0 }
+func __rc(n int) int                    { return 0 }
 func __rm[T any](n int) T { var z T; return z }
 func __recvs() int { return 0 }
 func __wgerr() error { return nil }
